@@ -90,9 +90,19 @@ Theorem C02_compression_exact_none_tree : forall c n w w',
 Proof. exact compression_exact. Qed.
 Print Assumptions C02_compression_exact_none_tree.
 
-(* HashTable::find may visit entries in any order: with at most one matching
-   entry per query the model's list search gives the same answer for every
-   arrangement of the same entry set. *)
+(* In every reachable state at most one hash entry matches a query (proved:
+   the insertion discipline of HashCompressor::append_compressed_name keeps
+   (label up to case, tail) unique, truncation and appends preserve it), so
+   HashTable::find gives the same answer whatever order it meets the entries in. *)
+Theorem C02_hash_lookup_order_irrelevant : forall c ops s0 s a ws l pos es',
+  init c = Some s0 -> Forall wf_op ops -> run_acc c s0 acc0 ops = (s, a, ws) -> all_alive ws ->
+  (forall e, In e (w_hash (b_w s)) <-> In e es') ->
+  hash_find (w_buf (b_w s)) (mlen (w_buf (b_w s))) es' l pos =
+  hash_find (w_buf (b_w s)) (mlen (w_buf (b_w s))) (w_hash (b_w s)) l pos.
+Proof. exact hash_lookup_order_irrelevant_reachable. Qed.
+Print Assumptions C02_hash_lookup_order_irrelevant.
+
+(* the general fact behind it, for any table with unique keys *)
 Theorem C02_hash_find_order_irrelevant : forall m ml l pos es es',
   (forall e, In e es <-> In e es') ->
   Forall (fun e => label_at m ml (fst e) <> None) es ->
@@ -115,3 +125,14 @@ Print Assumptions C02_push_ok_below_limit.
 Theorem C02_opt_restores_header_rcode : opt_restores_rcode_on_err = true.
 Proof. exact restore_flag. Qed.
 Print Assumptions C02_opt_restores_header_rcode.
+
+(* Every builder conversion, from every section to every section (the code's
+   shortcuts are compositions of single steps, T1 conversions_anchored), ends
+   in the wanted section, keeps the accepted items and counters of the
+   sections up to it and empties exactly those above it. *)
+Theorem C02_conversions_zero_the_right_counters : forall c s a k s' a' ws,
+  BW c s -> CountInv s a -> k <= 3 ->
+  run_acc c s a (conv_ops (b_sec s) k) = (s', a', ws) ->
+  b_sec s' = k /\ Forall (fun w => w = RNone) ws /\ CountInv s' a' /\ acc_upto a a' k.
+Proof. exact conv_counts. Qed.
+Print Assumptions C02_conversions_zero_the_right_counters.
